@@ -1,97 +1,155 @@
-(* C01/C07 — non-vacuity: concrete, non-trivial histories satisfy the hypotheses of the theorems. *)
+(* C01/C07 — non-vacuity: concrete, non-trivial histories satisfy the hypotheses of the theorems
+   (ok_hist_f: only the conditions that exclude the open findings). *)
 From Coq Require Import ZArith List Bool Arith Lia.
 From Acme.C01 Require Import Layout State Model ProofsLayout ProofsInv.
-From Acme.C07 Require Import Proofs.
+From Acme.C07 Require Import Proofs ProofsReg.
 Import ListNotations.
 Open Scope Z_scope.
 
-(* a 2-byte message with an enum signal (shared enum 0), a 4-bit and a 3-bit signal; the enum
-   grows (pushing its follower), a type grows, a signal is shifted, the message is compacted *)
-Definition example_ops : list op :=
-  [ONewMsg 2; ONewEnum; ONewEnumSig 0; ONewStd 4; ONewStd 3;
-   OAppend 0 0; OAppend 0 1; OInsert 0 2 9;
-   OAddValue 0 3; OSetType 1 5; OShiftL 0 2 1; OCompact 0; OResize 0 2].
-
-Ltac in_false H := repeat (destruct H as [H|H]; [try discriminate; try lia|]); try contradiction.
-Ltac solve_in H := cbn in H; first [contradiction | (in_false H; fail) | idtac].
-Ltac closes H := vm_compute in H; first [contradiction | solve [in_false H]].
+Ltac in_false H := repeat (destruct H as [H|H]; [try discriminate|]); try exact H.
+Ltac closes H := vm_compute in H; first [exact H | solve [in_false H]].
 
 (* case analysis on a handle until the concrete state decides *)
 Ltac by_cases H m :=
   first [ closes H
         | destruct m as [|m]; [closes H| first [closes H | destruct m as [|m]; [closes H| first [closes H | destruct m as [|m]; [closes H|closes H]]]]]].
 
-Ltac no_groups H g := unfold gget in H; vm_compute in H; first [contradiction | destruct g; vm_compute in H; contradiction].
+Ltac no_groups H g := destruct g; vm_compute in H; exact H.
 
+(* x is in no layout: states without multiplexers *)
 Ltac not_attached :=
   let L := fresh "L" in let HL := fresh "HL" in
   intros [L HL]; destruct L as [m|u g]; [by_cases HL m | no_groups HL g].
 
-(* a top-level signal x of message 0 in a state without multiplexers *)
-Ltac link_top_msg0 :=
-  split;
-  [ let m := fresh "m" in let Hin := fresh "Hin" in
-    intros m Hin; destruct m as [|m];
-    [ vm_compute; repeat split; reflexivity
-    | exfalso; by_cases Hin m ]
-  | let NA := fresh "NA" in intros NA; exfalso; apply NA; exists (LM 0%nat); vm_compute; tauto ].
-
+(* no multiplexer group holds anything: no followers in groups *)
 Ltac no_followers :=
   let u := fresh "u" in let g := fresh "g" in let fs := fresh "fs" in let y := fresh "y" in let Hf := fresh "Hf" in
-  intros u g fs y Hf; exfalso; unfold gget in Hf; vm_compute in Hf; first [discriminate | destruct g; vm_compute in Hf; discriminate].
+  intros u g fs y Hf; exfalso; unfold gget in Hf; destruct g; vm_compute in Hf; discriminate.
 
-Ltac resize_ok_msg0 := split; [link_top_msg0 | no_followers].
+Lemma ok_hist_cons : forall s o r, ok_op_f s o -> ok_hist_f_from (fst (step s o)) r -> ok_hist_f_from s (o :: r).
+Proof. intros s o r A B. cbn [ok_hist_f_from]. split; assumption. Qed.
 
-Example example_ok : ok_hist_w example_ops.
+(* one step of a concrete history: prove the hypothesis of the op on the (normal-form) state, then
+   replace the next state by its vm_compute normal form (equality checked by the VM, so that Qed
+   does not re-evaluate the nested steps lazily) *)
+Ltac hist_step :=
+  lazymatch goal with
+  | |- ok_hist_f_from ?s (?o :: ?r) =>
+    let s' := eval vm_compute in (fst (step s o)) in
+    apply ok_hist_cons;
+    [ cbn [ok_op_f]; try exact I
+    | replace (fst (step s o)) with s' by (vm_compute; reflexivity) ]
+  | |- ok_hist_f_from _ [] => exact I
+  end.
+
+(* ---------------------------------------------------------------------------------------------- *)
+(* 1. two messages whose enum signals share one enum; the enum grows (both signals push their     *)
+(*    followers), a type grows, a shift, a compaction, a resize                                    *)
+(* ---------------------------------------------------------------------------------------------- *)
+Definition example_ops : list op :=
+  [ONewMsg 2; ONewMsg 1; ONewEnum; ONewEnumSig 0; ONewEnumSig 0; ONewStd 4; ONewStd 3; ONewStd 2;
+   OAppend 0 0; OAppend 0 2; OInsert 0 3 9;        (* message 0: enum sig 0, std 2 (4 bits), std 3 (3 bits) at 9 *)
+   OAppend 1 1; OAppend 1 4;                        (* message 1: enum sig 1, std 4 (2 bits) *)
+   OAddValue 0 3;                                   (* the shared enum grows from 1 to 2 bits *)
+   OSetType 2 5; OShiftL 0 3 1; OCompact 0; OResize 0 2; OSetMinSize 0 1].
+
+Example example_ok : ok_hist_f example_ops.
 Proof.
-  unfold ok_hist_w, example_ops. cbn [ok_hist_w_from].
-  repeat match goal with |- _ /\ _ => split end; try exact I.
-  all: cbn [ok_op_w].
-  - not_attached.
-  - not_attached.
-  - not_attached.
-  - intros _ _. split.
-    + intros x Hx. vm_compute in Hx. destruct Hx as [<-|[]]. resize_ok_msg0.
-    + intros L x y Hx Hy _ _. vm_compute in Hx, Hy. destruct Hx as [<-|[]]. destruct Hy as [<-|[]]. reflexivity.
-  - resize_ok_msg0.
+  unfold ok_hist_f, example_ops.
+  do 8 hist_step.
+  hist_step; [not_attached|]. hist_step; [not_attached|]. hist_step; [not_attached|].
+  hist_step; [not_attached|]. hist_step; [not_attached|].
+  hist_step.
+  { intros _ _. split.
+    - intros x Hx. no_followers.
+    - (* the two referencing signals sit in different messages *)
+      intros L x y Hx Hy HLx HLy. vm_compute in Hx. vm_compute in Hy.
+      destruct Hx as [Ex|[Ex|[]]]; destruct Hy as [Ey|[Ey|[]]]; subst x y.
+      + reflexivity.
+      + exfalso. destruct L as [m|u g]; [|no_groups HLx g].
+        destruct m as [|[|m]]; vm_compute in HLx; vm_compute in HLy; first [solve [in_false HLx] | solve [in_false HLy]].
+      + exfalso. destruct L as [m|u g]; [|no_groups HLx g].
+        destruct m as [|[|m]]; vm_compute in HLx; vm_compute in HLy; first [solve [in_false HLx] | solve [in_false HLy]].
+      + reflexivity. }
+  hist_step; [no_followers|].
+  do 3 hist_step.
+  hist_step; [intros x Hx Ha; vm_compute; discriminate|].
+  hist_step.
 Qed.
 
-(* the history is not trivial: the enum growth pushed the follower and every operation was accepted *)
+(* the history is not trivial: both enum signals grew and pushed their followers *)
 Example example_final :
-  map (fun x => (x, rel (run example_ops) x, sz (run example_ops) x)) (glay (run example_ops) 0)
-  = [(0%nat, 0, 2); (1%nat, 2, 5); (2%nat, 7, 3)].
+  map (fun m => map (fun x => (x, rel (run example_ops) x, sz (run example_ops) x)) (glay (run example_ops) m)) [0%nat; 1%nat]
+  = [[(0%nat, 0, 2); (2%nat, 2, 5); (3%nat, 7, 3)]; [(1%nat, 0, 2); (4%nat, 2, 2)]].
 Proof. vm_compute. reflexivity. Qed.
 
-(* C07: a 4-group multiplexer; a fixed signal, a two-group signal, a signal inserted into one group
-   and later into a further group at the same start bit; shift, clear-group, remove *)
+(* ---------------------------------------------------------------------------------------------- *)
+(* 2. a multiplexer attached to a message, a nested multiplexer in one of its groups, fixed,       *)
+(*    two-group and repeated insertion, SetType (shrink and grow) of a signal inside the nested   *)
+(*    multiplexer, clear-group, removals (also through Message.RemoveSignal with a nested id)     *)
+(* ---------------------------------------------------------------------------------------------- *)
 Definition mux_example_ops : list op :=
-  [ONewMux 4 16; ONewStd 4; ONewStd 4; ONewStd 4;
-   OMuxInsert 0 1 8 []; OMuxInsert 0 2 0 [0; 2]; OMuxInsert 0 3 4 [0]; OMuxInsert 0 3 4 [2];
-   OMuxShiftR 0 3 2; OMuxClearGroup 0 2; OMuxShiftR 0 3 2; OMuxRemove 0 1].
+  [ONewMsg 8; ONewMux 4 16; ONewMux 2 8; ONewStd 4; ONewStd 4; ONewStd 3; ONewStd 2;
+   OAppend 0 0;                         (* multiplexer 0 is the first signal of message 0 *)
+   OMuxInsert 0 2 0 [];                 (* signal 2 fixed at 0 *)
+   OMuxInsert 0 1 4 [1];                (* multiplexer 1 nested in group 1 at 4 *)
+   OMuxInsert 1 3 0 [0]; OMuxInsert 1 4 4 [0];   (* signals 3, 4 in group 0 of the nested multiplexer *)
+   OMuxInsert 0 5 4 [0; 2]; OMuxInsert 0 5 4 [3]; (* signal 5 in groups 0, 2 and later 3, same start bit *)
+   OSetType 3 3; OSetType 3 4;          (* shrink, then grow, inside the attached nested multiplexer *)
+   OMuxShiftL 1 4 1; OMuxClearGroup 0 2; OMuxRemove 0 2; OShiftR 0 0 5; ORemove 0 3].
+
+(* close a hypothesis H : In x (nth g groups []) / followers ... by trying g = 0, 1, 2, 3, 4 and beyond *)
+Ltac gcases H g :=
+  first [ vm_compute in H; first [exact H | discriminate H | solve [in_false H]]
+        | destruct g as [|g];
+          [ vm_compute in H; first [exact H | discriminate H | solve [in_false H]]
+          | gcases H g ] ].
 
 Ltac not_attached_mux :=
   let L := fresh "L" in let HL := fresh "HL" in
   intros [L HL]; destruct L as [m|u g];
-  [ vm_compute in HL; contradiction
-  | unfold gget in HL; destruct u as [|u];
-    [ vm_compute in HL; repeat (destruct g as [|g]; [in_false HL|]); vm_compute in HL; try contradiction; in_false HL
-    | vm_compute in HL; first [contradiction | destruct g; vm_compute in HL; contradiction] ] ].
+  [ by_cases HL m
+  | unfold lay, gget in HL; destruct u as [|[|u]]; gcases HL g ].
 
-Example mux_example_ok : ok_hist_w mux_example_ops.
+Example mux_example_ok : ok_hist_f mux_example_ops.
 Proof.
-  unfold ok_hist_w, mux_example_ops. cbn [ok_hist_w_from].
-  repeat match goal with |- _ /\ _ => split end; try exact I.
-  all: cbn [ok_op_w].
-  - left. not_attached_mux.
-  - left. not_attached_mux.
-  - left. not_attached_mux.
-  - right. split; [vm_compute; reflexivity|]. intros L HL. destruct L as [m|u g].
-    + vm_compute in HL. contradiction.
-    + destruct u as [|u]; [exists g; reflexivity|]. exfalso. unfold gget in HL. vm_compute in HL.
-      first [contradiction | destruct g; vm_compute in HL; contradiction].
+  unfold ok_hist_f, mux_example_ops.
+  do 7 hist_step.
+  hist_step; [not_attached_mux|].
+  hist_step; [left; not_attached_mux|].
+  hist_step; [left; not_attached_mux|].
+  hist_step; [left; not_attached_mux|].
+  hist_step; [left; not_attached_mux|].
+  hist_step; [left; not_attached_mux|].
+  hist_step.
+  { right. split; [vm_compute; reflexivity|]. intros L HL. destruct L as [m|u g].
+    - exfalso. by_cases HL m.
+    - destruct u as [|u]; [exists g; reflexivity|]. exfalso. unfold lay, gget in HL. destruct u as [|u]; gcases HL g. }
+  (* SetType of signal 3 inside the nested multiplexer 1: its follower (signal 4) is held by group 0 only *)
+  hist_step.
+  { intros u g fs y Hf Hy g' Hg'. unfold gget in Hf, Hg'.
+    destruct u as [|[|u]].
+    - exfalso. gcases Hf g.
+    - destruct g as [|g]; [|exfalso; gcases Hf g].
+      vm_compute in Hf. inversion Hf; subst fs. destruct Hy as [<-|[]].
+      destruct g' as [|g']; [reflexivity|]. exfalso. gcases Hg' g'.
+    - exfalso. gcases Hf g. }
+  hist_step.
+  { intros u g fs y Hf Hy g' Hg'. unfold gget in Hf, Hg'.
+    destruct u as [|[|u]].
+    - exfalso. gcases Hf g.
+    - destruct g as [|g]; [|exfalso; gcases Hf g].
+      vm_compute in Hf. inversion Hf; subst fs. destruct Hy as [<-|[]].
+      destruct g' as [|g']; [reflexivity|]. exfalso. gcases Hg' g'.
+    - exfalso. gcases Hf g. }
+  do 6 hist_step.
 Qed.
 
 Example mux_example_final :
-  map (fun l => map (fun x => (x, rel (run mux_example_ops) x)) l) (ugroups (run mux_example_ops) 0)
-  = [[(2%nat, 0); (3%nat, 4)]; []; []; []].
+  (map (fun l => map (fun x => (x, rel (run mux_example_ops) x, start_bit (run mux_example_ops) x)) l) (ugroups (run mux_example_ops) 0),
+   map (fun l => map (fun x => (x, rel (run mux_example_ops) x, start_bit (run mux_example_ops) x)) l) (ugroups (run mux_example_ops) 1),
+   glay (run mux_example_ops) 0, rel (run mux_example_ops) 0)
+  = ([[(5%nat, 4, 11)]; [(1%nat, 4, 11)]; []; [(5%nat, 4, 11)]],
+     [[(4%nat, 4, 16)]; []],
+     [0%nat], 5).
 Proof. vm_compute. reflexivity. Qed.
